@@ -24,6 +24,9 @@ structure Interfaces where
   /-- [orecv] `attach_total` -/
   attach_total : ∀ st id f, OInv st → (∀ e, f = some e → FileOK e) →
     ∃ st' b, ObjRecv.attachFdt Full.params st id f = .ok (st', b) ∧ OInv st'
+  /-- [orecv] the File entry that stands for the EXT_FTI of an FDT packet (`Full.fdtEntry0`, the TOI-0 adapter) is
+      admissible when the packet is -/
+  entry0_ok : ∀ q, PktOK q → ∀ e, Full.fdtEntry0 q = some e → FileOK e
   /-- [wire] `parsed_pkt_wf`, object half -/
   parsed_pkt_ok : ∀ (d : List UInt8) (p : Alc.AlcPkt), Alc.parseAlcPkt (d.map UInt8.toNat) = .ok p →
     PktOK (Full.toPkt (ofAlc (d.map UInt8.toNat) p))
@@ -45,11 +48,16 @@ def BOpAns (X : Interfaces) : BOp → Prop
   | .data _ _ ans => AnsOK X ans
   | .cleanup _ _ => True
 
-/-- some ObjectReceiver of the registry panicked or hung in this or an earlier call -/
+def anyFault : Full.Any → Bool
+  | .inr o => o.fault
+  | .inl _ => false
+
+/-- some ObjectReceiver - of the registry, or the FDT object (TOI 0) inside an FDT-instance receiver - panicked or hung
+    in this or an earlier call -/
 def hasFault (s : State Full.Any) : Bool :=
-  s.objects.any fun x => match x.2 with
-    | .inr o => o.fault
-    | .inl _ => false
+  (s.objects.any fun x => anyFault x.2) ||
+  (s.fdtReceivers.any fun kf => match kf.2.obj with | some o => anyFault o | none => false) ||
+  (s.fdtCurrent.any fun f => match f.obj with | some o => anyFault o | none => false)
 
 /-- **`Receiver::push_data(d, now)`, the whole call**: `.error` = a panic or a hang anywhere between the datagram bytes and
     the ring buffer of a decompressor -/
